@@ -453,7 +453,16 @@ func (vc *VC) emitVariant(o *Obl, dir string, idx int, variant int) (string, int
 						// assumed on some path: the instance holds under that path's condition
 						emitted := false
 						for _, pcn := range pcs {
-							if pathSyms[pcn] {
+							// pcn: a path condition symbol, or (and pc guard...) for a quantifier under implications
+							m := map[string]bool{}
+							symbols(pcn, m)
+							onPath := false
+							for sy := range m {
+								if strings.HasPrefix(sy, "pc") && pathSyms[sy] {
+									onPath = true
+								}
+							}
+							if onPath {
 								fmt.Fprintf(&b, "(assert (=> %s %s))\n", pcn, inst)
 								n++
 								emitted = true
